@@ -574,9 +574,39 @@ func SetValue(dest, v reflect.Value) {
 	case reflect.Uint, reflect.Uint8, reflect.Uint16, reflect.Uint32, reflect.Uint64:
 		dest.SetUint(EnsureUint64(v.Interface()))
 		return
+	case reflect.Slice:
+		// a list whose registered Go type is not the one wanted here ([]*T for []T: both travel as "[T"), or
+		// an untyped list: convert element by element
+		if v.Kind() == reflect.Slice {
+			if sl, err := ConvertSliceValueType(dest.Type(), v); err == nil {
+				if sl.IsValid() {
+					dest.Set(sl)
+				}
+				return
+			}
+		}
+	case reflect.Map:
+		// a map that travelled untyped (a list element, a map value) arrives as map[interface{}]interface{}:
+		// give its entries the key and value types of the Go map it is assigned to
+		if v.Kind() == reflect.Map {
+			m := reflect.MakeMap(dest.Type())
+			for _, key := range v.MapKeys() {
+				m.SetMapIndex(convertTo(dest.Type().Key(), unpackInterface(key)), convertTo(dest.Type().Elem(), unpackInterface(v.MapIndex(key))))
+			}
+			dest.Set(m)
+			return
+		}
 	}
 
 	dest.Set(v)
+}
+
+// unpackInterface returns the value held by an interface-kinded value (the zero Value for a nil interface)
+func unpackInterface(v reflect.Value) reflect.Value {
+	if v.Kind() == reflect.Interface {
+		return v.Elem()
+	}
+	return v
 }
 
 func AddrEqual(x, y interface{}) bool {
